@@ -234,26 +234,35 @@ def grid_candidates(paths_list, limit=4000):
     return out
 
 
+DENSE_BUDGET = [60]   # dense local searches per run (each costs seconds of exact arithmetic)
+
+
 def confirm_region(sets, band_edges, r2, pred, q, search=True):
     """independent confirmation: find a point farther than sqrt(r2) from every band
     edge where pred(list of winding numbers) is False.  Returns dict or None."""
-    cands = candidate_points(q)
-    if search:
-        cands += grid_candidates(sets, 1600)
-        if q is not None:
-            # dense local search around the checker's witness cell (a wrong region may clear the band by a sliver)
-            for step, half in ((F(1, 8), 24), (F(1, 32), 32)):
-                for i in range(-half, half + 1):
-                    for j in range(-half, half + 1):
-                        cands.append((q[0] + i * step + F(1, 1009), q[1] + j * step + F(1, 997)))
-    for c in cands:
-        d2 = geom.min_dist2(band_edges, c)
-        if d2 is not None and d2 <= r2:
-            continue
-        ws = [geom.wn(s, c) for s in sets]
-        if not pred(ws):
-            return {'point': [str(c[0]), str(c[1])], 'windings': ws,
-                    'min_dist2_to_band': None if d2 is None else float(d2)}
+    def scan(cands):
+        for c in cands:
+            d2 = geom.min_dist2(band_edges, c)
+            if d2 is not None and d2 <= r2:
+                continue
+            ws = [geom.wn(s, c) for s in sets]
+            if not pred(ws):
+                return {'point': [str(c[0]), str(c[1])], 'windings': ws,
+                        'min_dist2_to_band': None if d2 is None else float(d2)}
+        return None
+    hit = scan(candidate_points(q))
+    if hit or not search:
+        return hit
+    hit = scan(grid_candidates(sets, 1600))
+    if hit or q is None or DENSE_BUDGET[0] <= 0:
+        return hit
+    # dense local search around the checker's witness (a wrong region may clear the band by a sliver)
+    DENSE_BUDGET[0] -= 1
+    for step, half in ((F(1, 8), 24), (F(1, 32), 32)):
+        hit = scan((q[0] + i * step + F(1, 1009), q[1] + j * step + F(1, 997))
+                   for i in range(-half, half + 1) for j in range(-half, half + 1))
+        if hit:
+            return hit
     return None
 
 
@@ -279,8 +288,16 @@ def run(root, pid, tier, seed, replay):
         print('ERROR: harness does not build against /repo working tree:\n' + log[-3000:])
         return 2
     ok, log = build_coq(root)
+    build_error = ''
     if not ok:
-        print('ERROR: Coq/OCaml build failed:\n' + log[-3000:])
+        # the first error of the full build (make stops there; later .vo files may be stale)
+        try:
+            mk = open(os.path.join(root, 'build', 'coq_make.log')).read()
+        except OSError:
+            mk = log
+        i = mk.find('Error')
+        build_error = mk[max(0, mk.rfind('File "', 0, i)):i + 1500] if i >= 0 else log[-1500:]
+        print('ERROR: Coq/OCaml build failed:\n' + build_error[:1500])
         # a broken proof is handled below through check_props; a broken build of the
         # shared development is reported per property by the theorem re-check
     pr = check_props(root, pid, P.get('extra_props', ()))
@@ -304,7 +321,7 @@ def run(root, pid, tier, seed, replay):
         # a theorem (or the generated model it is about) no longer checks
         violations.append({'key': 'theorem:' + pid, 'kind': 'proof-broken',
                            'text': 'theorem file no longer checks: ' + ';'.join(pr['files']),
-                           'detail': {'log': pr['log'][-3000:], 'hygiene': pr.get('hygiene')}, 'no_input': True})
+                           'detail': {'log': pr['log'][-3000:], 'hygiene': pr.get('hygiene'), 'first_build_error': build_error}, 'no_input': True})
     try:
         found = P['run'](ctx)
     except Exception as e:  # machinery error, not a verdict
